@@ -9,10 +9,15 @@
    therefore need the lock), processes exit announcements, and on shutdown posts sentinels and joins what is registered.
 
    Switches: SpawnUnderLock (D19: _resize spawns under the processes management lock -- TRUE after the fix),
-   CallbackSubmits (the D6 pattern), UserShutdown (the D18 pattern).  Open findings are exempted through `hit`.     *)
+   CallbackSubmits (the D6 pattern), UserShutdown (the D18 pattern), RecheckAfterWait (D24: a worker that dies while
+   _resize waits for the jobs breaks the pool; without the re-check _resize goes on to spawn workers on the broken
+   executor, which nobody ever stops).  Open findings are exempted through `hit`.                                   *)
 EXTENDS Naturals, FiniteSets, Sequences, TLC
 
-CONSTANTS Callers, Size, Pids, MaxTimeout, HasTimeout, CallbackSubmits, UserShutdown, SpawnUnderLock
+CONSTANTS Callers, Size, Pids, MaxTimeout, HasTimeout, CallbackSubmits, UserShutdown, SpawnUnderLock,
+          MaxCrash,            \* abrupt deaths of registered workers (the environment)
+          RecheckAfterWait     \* D24: _resize looks at the broken / shutdown flags again after waiting for the jobs, and
+                               \*      get_reusable_executor replaces an executor that became unusable during the resize
 
 (* --algorithm reusable
 variables
@@ -20,7 +25,8 @@ variables
   eid = 0, maxw = 0, procs = {}, alive = {}, announced = {}, used = {},
   pending = 0, sentinels = 0, shutdownF = FALSE, mgr = "none", callbacks = (IF CallbackSubmits THEN 1 ELSE 0),
   starting = {}, timeouts = 0, got = [c \in Callers |-> 0], done = [c \in Callers |-> FALSE], hit = {},
-  gracePassed = {}, broken = FALSE;
+  gracePassed = {}, broken = FALSE, crashes = 0,
+  sawBroken = [c \in Callers |-> FALSE];      \* ghost: the instance was already unusable when this call's wait for the jobs ended
 
 define
   Fresh == Pids \ used
@@ -46,11 +52,16 @@ begin
         shutdownF := TRUE;
  cjoin: await mgr \in {"none", "done"};
         eid := eid + 1; maxw := Size[self]; shutdownF := FALSE; broken := FALSE; mgr := "none"; procs := {}; sentinels := 0; pending := 0;
+        sawBroken[self] := FALSE;
         goto cret;
      elsif Size[self] = maxw then goto cret;
      elsif mgr = "none" then maxw := Size[self]; goto cret;
      end if;
  r1: await pending = 0;                                    \* _wait_job_completion (polling)
+ r1b: sawBroken[self] := broken;
+      \* _resize returns at once when the instance was flagged meanwhile; get_reusable_executor replaces a broken one
+      if RecheckAfterWait /\ broken then goto crep;
+      elsif RecheckAfterWait /\ shutdownF then goto cret; end if;
  r2: await mgmt = "free"; mgmt := self;
  r2b: k := Cardinality(procs \cap alive);
       maxw := Size[self];
@@ -59,12 +70,13 @@ begin
  r3: await Cardinality(procs) <= maxw \/ broken;           \* polling: only the manager pops workers
  r4: if SpawnUnderLock then await mgmt = "free"; mgmt := self; end if;
  r4s: while NeedSpawn do
-        if shutdownF then hit := hit \cup {"D18"}; end if;
+        if broken then hit := hit \cup {"D24"}; elsif shutdownF then hit := hit \cup {"D18"}; end if;
         \* p.start() ... then self._processes[p.pid] = p : the new worker runs before it is registered
         with p \in Fresh do alive := alive \cup {p}; used := used \cup {p}; starting := {p}; end with;
  r4r:   procs := procs \cup starting; starting := {};
       end while;
  r4u: if mgmt = self then mgmt := "free"; end if;
+      if RecheckAfterWait /\ broken then goto crep; end if;
  cret: got[self] := eid; exlock := "free";
  \* executor.submit(job): needs the same lock
  s0: await exlock = "free"; exlock := self;
@@ -130,6 +142,14 @@ begin
      end while;
 end process;
 
+\* the environment: a registered, live worker dies without announcing anything
+process env = "E"
+begin
+ e0: while crashes < MaxCrash do
+       with w \in (procs \cap alive) \ announced do alive := alive \ {w}; crashes := crashes + 1; end with;
+     end while;
+end process;
+
 process worker \in Pids
 begin
  w0: while TRUE do
@@ -151,7 +171,7 @@ end algorithm; *)
 \* BEGIN TRANSLATION
 VARIABLES pc, exlock, mgmt, eid, maxw, procs, alive, announced, used, pending, 
           sentinels, shutdownF, mgr, callbacks, starting, timeouts, got, done, 
-          hit, gracePassed, broken
+          hit, gracePassed, broken, crashes, sawBroken
 
 (* define statement *)
 Fresh == Pids \ used
@@ -162,9 +182,9 @@ VARIABLE k
 
 vars == << pc, exlock, mgmt, eid, maxw, procs, alive, announced, used, 
            pending, sentinels, shutdownF, mgr, callbacks, starting, timeouts, 
-           got, done, hit, gracePassed, broken, k >>
+           got, done, hit, gracePassed, broken, crashes, sawBroken, k >>
 
-ProcSet == (Callers) \cup {"S"} \cup {"M"} \cup (Pids)
+ProcSet == (Callers) \cup {"S"} \cup {"M"} \cup {"E"} \cup (Pids)
 
 Init == (* Global variables *)
         /\ exlock = "free"
@@ -187,11 +207,14 @@ Init == (* Global variables *)
         /\ hit = {}
         /\ gracePassed = {}
         /\ broken = FALSE
+        /\ crashes = 0
+        /\ sawBroken = [c \in Callers |-> FALSE]
         (* Process caller *)
         /\ k = [self \in Callers |-> 0]
         /\ pc = [self \in ProcSet |-> CASE self \in Callers -> "c0"
                                         [] self = "S" -> "x0"
                                         [] self = "M" -> "m0"
+                                        [] self = "E" -> "e0"
                                         [] self \in Pids -> "w0"]
 
 c0(self) == /\ pc[self] = "c0"
@@ -201,7 +224,7 @@ c0(self) == /\ pc[self] = "c0"
             /\ UNCHANGED << mgmt, eid, maxw, procs, alive, announced, used, 
                             pending, sentinels, shutdownF, mgr, callbacks, 
                             starting, timeouts, got, done, hit, gracePassed, 
-                            broken, k >>
+                            broken, crashes, sawBroken, k >>
 
 c1(self) == /\ pc[self] = "c1"
             /\ IF eid = 0
@@ -224,7 +247,8 @@ c1(self) == /\ pc[self] = "c1"
                        /\ UNCHANGED << eid, shutdownF, mgr >>
             /\ UNCHANGED << exlock, mgmt, procs, alive, announced, used, 
                             pending, sentinels, callbacks, starting, timeouts, 
-                            got, done, hit, gracePassed, broken, k >>
+                            got, done, hit, gracePassed, broken, crashes, 
+                            sawBroken, k >>
 
 crep(self) == /\ pc[self] = "crep"
               /\ shutdownF' = TRUE
@@ -232,7 +256,7 @@ crep(self) == /\ pc[self] = "crep"
               /\ UNCHANGED << exlock, mgmt, eid, maxw, procs, alive, announced, 
                               used, pending, sentinels, mgr, callbacks, 
                               starting, timeouts, got, done, hit, gracePassed, 
-                              broken, k >>
+                              broken, crashes, sawBroken, k >>
 
 cjoin(self) == /\ pc[self] = "cjoin"
                /\ mgr \in {"none", "done"}
@@ -244,18 +268,31 @@ cjoin(self) == /\ pc[self] = "cjoin"
                /\ procs' = {}
                /\ sentinels' = 0
                /\ pending' = 0
+               /\ sawBroken' = [sawBroken EXCEPT ![self] = FALSE]
                /\ pc' = [pc EXCEPT ![self] = "cret"]
                /\ UNCHANGED << exlock, mgmt, alive, announced, used, callbacks, 
                                starting, timeouts, got, done, hit, gracePassed, 
-                               k >>
+                               crashes, k >>
 
 r1(self) == /\ pc[self] = "r1"
             /\ pending = 0
-            /\ pc' = [pc EXCEPT ![self] = "r2"]
+            /\ pc' = [pc EXCEPT ![self] = "r1b"]
             /\ UNCHANGED << exlock, mgmt, eid, maxw, procs, alive, announced, 
                             used, pending, sentinels, shutdownF, mgr, 
                             callbacks, starting, timeouts, got, done, hit, 
-                            gracePassed, broken, k >>
+                            gracePassed, broken, crashes, sawBroken, k >>
+
+r1b(self) == /\ pc[self] = "r1b"
+             /\ sawBroken' = [sawBroken EXCEPT ![self] = broken]
+             /\ IF RecheckAfterWait /\ broken
+                   THEN /\ pc' = [pc EXCEPT ![self] = "crep"]
+                   ELSE /\ IF RecheckAfterWait /\ shutdownF
+                              THEN /\ pc' = [pc EXCEPT ![self] = "cret"]
+                              ELSE /\ pc' = [pc EXCEPT ![self] = "r2"]
+             /\ UNCHANGED << exlock, mgmt, eid, maxw, procs, alive, announced, 
+                             used, pending, sentinels, shutdownF, mgr, 
+                             callbacks, starting, timeouts, got, done, hit, 
+                             gracePassed, broken, crashes, k >>
 
 r2(self) == /\ pc[self] = "r2"
             /\ mgmt = "free"
@@ -264,7 +301,7 @@ r2(self) == /\ pc[self] = "r2"
             /\ UNCHANGED << exlock, eid, maxw, procs, alive, announced, used, 
                             pending, sentinels, shutdownF, mgr, callbacks, 
                             starting, timeouts, got, done, hit, gracePassed, 
-                            broken, k >>
+                            broken, crashes, sawBroken, k >>
 
 r2b(self) == /\ pc[self] = "r2b"
              /\ k' = [k EXCEPT ![self] = Cardinality(procs \cap alive)]
@@ -274,7 +311,8 @@ r2b(self) == /\ pc[self] = "r2b"
              /\ pc' = [pc EXCEPT ![self] = "r3"]
              /\ UNCHANGED << exlock, eid, procs, alive, announced, used, 
                              pending, shutdownF, mgr, callbacks, starting, 
-                             timeouts, got, done, hit, gracePassed, broken >>
+                             timeouts, got, done, hit, gracePassed, broken, 
+                             crashes, sawBroken >>
 
 r3(self) == /\ pc[self] = "r3"
             /\ Cardinality(procs) <= maxw \/ broken
@@ -282,7 +320,7 @@ r3(self) == /\ pc[self] = "r3"
             /\ UNCHANGED << exlock, mgmt, eid, maxw, procs, alive, announced, 
                             used, pending, sentinels, shutdownF, mgr, 
                             callbacks, starting, timeouts, got, done, hit, 
-                            gracePassed, broken, k >>
+                            gracePassed, broken, crashes, sawBroken, k >>
 
 r4(self) == /\ pc[self] = "r4"
             /\ IF SpawnUnderLock
@@ -294,14 +332,16 @@ r4(self) == /\ pc[self] = "r4"
             /\ UNCHANGED << exlock, eid, maxw, procs, alive, announced, used, 
                             pending, sentinels, shutdownF, mgr, callbacks, 
                             starting, timeouts, got, done, hit, gracePassed, 
-                            broken, k >>
+                            broken, crashes, sawBroken, k >>
 
 r4s(self) == /\ pc[self] = "r4s"
              /\ IF NeedSpawn
-                   THEN /\ IF shutdownF
-                              THEN /\ hit' = (hit \cup {"D18"})
-                              ELSE /\ TRUE
-                                   /\ hit' = hit
+                   THEN /\ IF broken
+                              THEN /\ hit' = (hit \cup {"D24"})
+                              ELSE /\ IF shutdownF
+                                         THEN /\ hit' = (hit \cup {"D18"})
+                                         ELSE /\ TRUE
+                                              /\ hit' = hit
                         /\ \E p \in Fresh:
                              /\ alive' = (alive \cup {p})
                              /\ used' = (used \cup {p})
@@ -311,7 +351,8 @@ r4s(self) == /\ pc[self] = "r4s"
                         /\ UNCHANGED << alive, used, starting, hit >>
              /\ UNCHANGED << exlock, mgmt, eid, maxw, procs, announced, 
                              pending, sentinels, shutdownF, mgr, callbacks, 
-                             timeouts, got, done, gracePassed, broken, k >>
+                             timeouts, got, done, gracePassed, broken, crashes, 
+                             sawBroken, k >>
 
 r4r(self) == /\ pc[self] = "r4r"
              /\ procs' = (procs \cup starting)
@@ -319,18 +360,21 @@ r4r(self) == /\ pc[self] = "r4r"
              /\ pc' = [pc EXCEPT ![self] = "r4s"]
              /\ UNCHANGED << exlock, mgmt, eid, maxw, alive, announced, used, 
                              pending, sentinels, shutdownF, mgr, callbacks, 
-                             timeouts, got, done, hit, gracePassed, broken, k >>
+                             timeouts, got, done, hit, gracePassed, broken, 
+                             crashes, sawBroken, k >>
 
 r4u(self) == /\ pc[self] = "r4u"
              /\ IF mgmt = self
                    THEN /\ mgmt' = "free"
                    ELSE /\ TRUE
                         /\ mgmt' = mgmt
-             /\ pc' = [pc EXCEPT ![self] = "cret"]
+             /\ IF RecheckAfterWait /\ broken
+                   THEN /\ pc' = [pc EXCEPT ![self] = "crep"]
+                   ELSE /\ pc' = [pc EXCEPT ![self] = "cret"]
              /\ UNCHANGED << exlock, eid, maxw, procs, alive, announced, used, 
                              pending, sentinels, shutdownF, mgr, callbacks, 
                              starting, timeouts, got, done, hit, gracePassed, 
-                             broken, k >>
+                             broken, crashes, sawBroken, k >>
 
 cret(self) == /\ pc[self] = "cret"
               /\ got' = [got EXCEPT ![self] = eid]
@@ -339,7 +383,7 @@ cret(self) == /\ pc[self] = "cret"
               /\ UNCHANGED << mgmt, eid, maxw, procs, alive, announced, used, 
                               pending, sentinels, shutdownF, mgr, callbacks, 
                               starting, timeouts, done, hit, gracePassed, 
-                              broken, k >>
+                              broken, crashes, sawBroken, k >>
 
 s0(self) == /\ pc[self] = "s0"
             /\ exlock = "free"
@@ -348,7 +392,7 @@ s0(self) == /\ pc[self] = "s0"
             /\ UNCHANGED << mgmt, eid, maxw, procs, alive, announced, used, 
                             pending, sentinels, shutdownF, mgr, callbacks, 
                             starting, timeouts, got, done, hit, gracePassed, 
-                            broken, k >>
+                            broken, crashes, sawBroken, k >>
 
 s1(self) == /\ pc[self] = "s1"
             /\ IF ~shutdownF /\ ~broken
@@ -359,7 +403,7 @@ s1(self) == /\ pc[self] = "s1"
             /\ UNCHANGED << exlock, mgmt, eid, maxw, procs, alive, announced, 
                             used, sentinels, shutdownF, mgr, callbacks, 
                             starting, timeouts, got, done, hit, gracePassed, 
-                            broken, k >>
+                            broken, crashes, sawBroken, k >>
 
 s2(self) == /\ pc[self] = "s2"
             /\ mgmt = "free"
@@ -368,7 +412,7 @@ s2(self) == /\ pc[self] = "s2"
             /\ UNCHANGED << exlock, eid, maxw, procs, alive, announced, used, 
                             pending, sentinels, shutdownF, mgr, callbacks, 
                             starting, timeouts, got, done, hit, gracePassed, 
-                            broken, k >>
+                            broken, crashes, sawBroken, k >>
 
 s3(self) == /\ pc[self] = "s3"
             /\ IF NeedSpawn
@@ -384,7 +428,8 @@ s3(self) == /\ pc[self] = "s3"
                        /\ UNCHANGED << procs, alive, used >>
             /\ UNCHANGED << exlock, eid, maxw, announced, pending, sentinels, 
                             shutdownF, callbacks, starting, timeouts, got, 
-                            done, hit, gracePassed, broken, k >>
+                            done, hit, gracePassed, broken, crashes, sawBroken, 
+                            k >>
 
 s4(self) == /\ pc[self] = "s4"
             /\ exlock' = "free"
@@ -393,13 +438,13 @@ s4(self) == /\ pc[self] = "s4"
             /\ UNCHANGED << mgmt, eid, maxw, procs, alive, announced, used, 
                             pending, sentinels, shutdownF, mgr, callbacks, 
                             starting, timeouts, got, hit, gracePassed, broken, 
-                            k >>
+                            crashes, sawBroken, k >>
 
 caller(self) == c0(self) \/ c1(self) \/ crep(self) \/ cjoin(self)
-                   \/ r1(self) \/ r2(self) \/ r2b(self) \/ r3(self)
-                   \/ r4(self) \/ r4s(self) \/ r4r(self) \/ r4u(self)
-                   \/ cret(self) \/ s0(self) \/ s1(self) \/ s2(self)
-                   \/ s3(self) \/ s4(self)
+                   \/ r1(self) \/ r1b(self) \/ r2(self) \/ r2b(self)
+                   \/ r3(self) \/ r4(self) \/ r4s(self) \/ r4r(self)
+                   \/ r4u(self) \/ cret(self) \/ s0(self) \/ s1(self)
+                   \/ s2(self) \/ s3(self) \/ s4(self)
 
 x0 == /\ pc["S"] = "x0"
       /\ IF UserShutdown
@@ -410,7 +455,8 @@ x0 == /\ pc["S"] = "x0"
       /\ pc' = [pc EXCEPT !["S"] = "Done"]
       /\ UNCHANGED << exlock, mgmt, eid, maxw, procs, alive, announced, used, 
                       pending, sentinels, mgr, callbacks, starting, timeouts, 
-                      got, done, hit, gracePassed, broken, k >>
+                      got, done, hit, gracePassed, broken, crashes, sawBroken, 
+                      k >>
 
 stopper == x0
 
@@ -452,7 +498,7 @@ m0 == /\ pc["M"] = "m0"
             /\ pc' = [pc EXCEPT !["M"] = "mfin"]
             /\ UNCHANGED <<procs, alive, announced, pending, shutdownF, callbacks, hit, gracePassed, broken>>
       /\ UNCHANGED << exlock, mgmt, eid, maxw, used, starting, timeouts, got, 
-                      done, k >>
+                      done, crashes, sawBroken, k >>
 
 mcb == /\ pc["M"] = "mcb"
        /\ exlock = "free"
@@ -460,7 +506,8 @@ mcb == /\ pc["M"] = "mcb"
        /\ pc' = [pc EXCEPT !["M"] = "mcb2"]
        /\ UNCHANGED << mgmt, eid, maxw, procs, alive, announced, used, pending, 
                        sentinels, shutdownF, mgr, callbacks, starting, 
-                       timeouts, got, done, hit, gracePassed, broken, k >>
+                       timeouts, got, done, hit, gracePassed, broken, crashes, 
+                       sawBroken, k >>
 
 mcb2 == /\ pc["M"] = "mcb2"
         /\ IF ~shutdownF /\ ~broken
@@ -471,7 +518,8 @@ mcb2 == /\ pc["M"] = "mcb2"
         /\ pc' = [pc EXCEPT !["M"] = "m0"]
         /\ UNCHANGED << mgmt, eid, maxw, procs, alive, announced, used, 
                         sentinels, shutdownF, mgr, callbacks, starting, 
-                        timeouts, got, done, hit, gracePassed, broken, k >>
+                        timeouts, got, done, hit, gracePassed, broken, crashes, 
+                        sawBroken, k >>
 
 mresp == /\ pc["M"] = "mresp"
          /\ IF pending > 0 /\ Cardinality(procs) < maxw /\ ~shutdownF
@@ -483,7 +531,7 @@ mresp == /\ pc["M"] = "mresp"
          /\ UNCHANGED << exlock, eid, maxw, procs, alive, announced, used, 
                          pending, sentinels, shutdownF, mgr, callbacks, 
                          starting, timeouts, got, done, hit, gracePassed, 
-                         broken, k >>
+                         broken, crashes, sawBroken, k >>
 
 mresp2 == /\ pc["M"] = "mresp2"
           /\ IF NeedSpawn
@@ -498,7 +546,8 @@ mresp2 == /\ pc["M"] = "mresp2"
                      /\ UNCHANGED << procs, alive, used >>
           /\ UNCHANGED << exlock, eid, maxw, announced, pending, sentinels, 
                           shutdownF, mgr, callbacks, starting, timeouts, got, 
-                          done, hit, gracePassed, broken, k >>
+                          done, hit, gracePassed, broken, crashes, sawBroken, 
+                          k >>
 
 mfin == /\ pc["M"] = "mfin"
         /\ mgmt = "free"
@@ -507,7 +556,7 @@ mfin == /\ pc["M"] = "mfin"
         /\ UNCHANGED << exlock, eid, maxw, procs, alive, announced, used, 
                         pending, sentinels, shutdownF, mgr, callbacks, 
                         starting, timeouts, got, done, hit, gracePassed, 
-                        broken, k >>
+                        broken, crashes, sawBroken, k >>
 
 mjoin == /\ pc["M"] = "mjoin"
          /\ IF procs # {}
@@ -522,9 +571,24 @@ mjoin == /\ pc["M"] = "mjoin"
                     /\ procs' = procs
          /\ UNCHANGED << exlock, eid, maxw, alive, announced, used, pending, 
                          sentinels, shutdownF, callbacks, starting, timeouts, 
-                         got, done, hit, gracePassed, broken, k >>
+                         got, done, hit, gracePassed, broken, crashes, 
+                         sawBroken, k >>
 
 manager == m0 \/ mcb \/ mcb2 \/ mresp \/ mresp2 \/ mfin \/ mjoin
+
+e0 == /\ pc["E"] = "e0"
+      /\ IF crashes < MaxCrash
+            THEN /\ \E w \in (procs \cap alive) \ announced:
+                      /\ alive' = alive \ {w}
+                      /\ crashes' = crashes + 1
+                 /\ pc' = [pc EXCEPT !["E"] = "e0"]
+            ELSE /\ pc' = [pc EXCEPT !["E"] = "Done"]
+                 /\ UNCHANGED << alive, crashes >>
+      /\ UNCHANGED << exlock, mgmt, eid, maxw, procs, announced, used, pending, 
+                      sentinels, shutdownF, mgr, callbacks, starting, timeouts, 
+                      got, done, hit, gracePassed, broken, sawBroken, k >>
+
+env == e0
 
 w0(self) == /\ pc[self] = "w0"
             /\ \/ /\ self \in alive /\ sentinels > 0
@@ -546,11 +610,11 @@ w0(self) == /\ pc[self] = "w0"
             /\ pc' = [pc EXCEPT ![self] = "w0"]
             /\ UNCHANGED << exlock, mgmt, eid, maxw, procs, used, pending, 
                             shutdownF, mgr, callbacks, starting, got, done, 
-                            hit, broken, k >>
+                            hit, broken, crashes, sawBroken, k >>
 
 worker(self) == w0(self)
 
-Next == stopper \/ manager
+Next == stopper \/ manager \/ env
            \/ (\E self \in Callers: caller(self))
            \/ (\E self \in Pids: worker(self))
 
@@ -572,5 +636,9 @@ Bounded == \A c \in Callers : Cardinality(procs) <= maxw \/ (\E d \in Callers : 
 \* D19: a worker that is not registered never takes the idle-timeout exit
 NoD6 == "D6" \notin hit
 NoD18 == "D18" \notin hit
+NoD24 == "D24" \notin hit
+\* C09: a call does not hand out an instance that was already broken / shut down when its wait for the jobs ended
+\* (a death after the last look at the flags cannot be excluded by any implementation)
+ReturnsUsable == [][ \A c \in Callers : (pc[c] = "cret" /\ pc'[c] = "s0") => ~sawBroken[c] \/ UserShutdown ]_vars
 OnlyRegisteredAnnounce == announced \subseteq procs \cup gracePassed \/ ~SpawnUnderLock
 =============================================================================
